@@ -224,7 +224,8 @@ static int mfp_load(struct module_data *m, HIO_HANDLE *f, const int start)
 		/* handle .set filenames like in Kid Chaos*/
 		if (strchr(m->basename, '-')) {
 			char *p = strrchr(smp_filename, '-');
-			if (p != NULL)
+			/* ".set" may be longer than what it replaces */
+			if (p != NULL && (size_t)(p - smp_filename) + 5 <= sizeof(smp_filename))
 				strcpy(p, ".set");
 		}
 		if ((s = hio_open(smp_filename, "rb")) == NULL) {
